@@ -6,6 +6,7 @@
   depends on floating-point facts.
 -/
 import Imeta.Lemmas.Hash
+import Imeta.Lemmas.QSelect
 namespace Imeta.Hash
 open Imeta
 
@@ -95,6 +96,36 @@ theorem C19_threshold_separates (T lo hi : α) (c : List α) (i : Nat) (h : i < 
   · intro h1 h2; simpa using LinearOrder'.lt_of_lt_of_le h1 h2
   · intro he; simp only [decide_eq_false_iff_not]; rw [he]; exact LinearOrder'.lt_irrefl _
 end
+
+/-! ## the threshold is the median: quickSelectMedian -/
+
+section
+variable {α : Type} [LT α] [DecidableLT α]
+
+/-- **quickSelectMedian finds the upper median** (Lomuto quickselect as written, iterative, in place; model
+`Hash.median`, tied to the code by the `hash.median` correspondence).  For every non-empty coefficient list c over a strict
+weak order (`<` on floats without NaN): the model does not index out of range and does not use up its 2n+2 rounds; there
+is an element y of c with at most n/2 elements of c smaller and at most n-1-n/2 larger — the upper median — such that
+for odd n the threshold is y, and for even n (64 and 256 coefficients) it is `x/2 + y/2` for an element x of c that
+is not larger than y.  With `C19_threshold_separates` (take hi = y): no coefficient above the upper median is ever cleared. -/
+theorem C19_median_is_upper_median (sw : StrictWeak α) (half : α → α) (add : α → α → α) (c : List α) (hc : c ≠ []) :
+    ∃ y, y ∈ c ∧ c.countP (fun x => decide (x < y)) ≤ c.length / 2 ∧ c.countP (fun x => decide (y < x)) ≤ c.length - 1 - c.length / 2 ∧
+      ((c.length % 2 = 1 ∨ c.length = 1) → median half add c = .ok y) ∧
+      (c.length % 2 = 0 → ∃ x, x ∈ c ∧ ¬ y < x ∧ median half add c = .ok (add (half x) (half y))) :=
+  median_spec sw half add c hc
+
+/-- the selection loop itself, for any k: permutation of the input, nothing left of k larger, nothing right of k smaller;
+never a panic, never out of fuel (at most 2·(hi-low)+1 rounds: a round that does not shrink the range leaves the strict
+maximum at its upper end, and the next round then shrinks it) -/
+theorem C19_quickselect (sw : StrictWeak α) (k low hi fuel : Nat) (a : Array α) (g : G k low hi a) (hf : 2 * (hi - low) + 1 < fuel) :
+    ∃ a', qselLoop k fuel low hi a = .ok a' ∧ a'.Perm a ∧ G k k k a' :=
+  qsel_spec sw k fuel low hi a g (Or.inl hf)
+end
+
+/-- the integers are a strict weak order (non-vacuity of `StrictWeak`), and the model run on a concrete list -/
+theorem strictWeak_int : StrictWeak Int := ⟨fun a b h => by omega, fun a b c h1 h2 => by omega, fun a b c h1 h2 => by omega⟩
+example : median (· / 2) (· + ·) ([5, 1, 4, 2, 3] : List Int) = .ok 3 := by decide
+example : median (· / 2) (· + ·) ([8, 1, 6, 2] : List Int) = .ok (1 + 3) := by decide
 
 /-! ## Hamming distance -/
 
